@@ -58,8 +58,28 @@ pub open spec fn core(&self) -> bool {
             && self.inner().rely_st().oe >= r0.oe && self.inner().rely_st().ne >= r0.ne && (self.inner().rely_st().lvl >= 1 ==> r0.lvl >= 1) && self.inner().rely_st().lvl <= 1
             && (!rst.fin ==> wf(self.inner().rely_st())))
 }
+/// C09 (latest insertion position), the forwarded script and the pending calls: a forwarded Insert that is directly followed by an Equal
+/// (forwarded or pending) cannot slide down across it; a pending pure insertion is the last call received
+pub open spec fn late_ok(&self) -> bool {
+    let rel = self.rr(); let em = self.em_(); let h = self.hist_();
+    &&& ev_late(rel, em)
+    &&& (self.p_eq() matches Some((o, n, l)) ==> em.len() > 0 ==> differs_after(rel, em.last(), o))
+    &&& (self.p_ins() matches Some((o, n, l)) ==> self.p_del() is None ==> h.len() > 0 && is_ins_at(h.last(), n))
+}
+/// ... provided the received script has every Insert directly in front of an Equal it cannot slide across (or last): what `Compact` sends
+pub open spec fn c9(&self) -> bool { ev_stuck(self.rr(), self.hist_()) ==> self.late_ok() }
 pub open spec fn inv(&self) -> bool {
     self.core() && (self.idle() && !self.rst().fin ==> self.hist_().len() == 0 && self.em_().len() == 0)
+    && self.c9()   // [C09]
+}
+/// what `flush_del_ins` forwards for the pending calls
+pub open spec fn flushed_ev(del: Option<(usize, usize, usize)>, ins: Option<(usize, usize, usize)>) -> Ev {
+    match (del, ins) {
+        (Some((o, ol, dn)), Some((io, n, nl))) => Ev::Replace(o, ol, n, nl),
+        (Some((o, ol, dn)), None) => Ev::Delete(o, ol, dn),
+        (None, Some((io, n, nl))) => Ev::Insert(io, n, nl),
+        (None, None) => Ev::Finish,
+    }
 }
 /// after creation (the creator then assigns rst0 by a ghost assignment)
 pub open spec fn fresh(&self) -> bool {
@@ -91,7 +111,8 @@ o.before('{', '''
         res.is_ok() ==> final(self).core() && final(self).p_eq() is None
             && final(self).p_del() == old(self).p_del() && final(self).p_ins() == old(self).p_ins()
             && (old(self).p_eq() is Some ==> final(self).xs().last == 1)
-            && (old(self).p_eq() is None ==> final(self).em_() == old(self).em_()),
+            && (old(self).p_eq() is None ==> final(self).em_() == old(self).em_())
+            && (old(self).p_eq() matches Some((o, n, l)) ==> final(self).em_() == old(self).em_().push(Ev::Equal(o, n, l))),   // [C09]
 ''', start=fe, ind='    ')
 i = o.find('self.d.equal(eq_old_index, eq_new_index, eq_len)?', fe)
 o.lines[i:i] = ghost('''
@@ -151,7 +172,8 @@ o.before('{', '''
 ''' + FRAME + '''
         res.is_ok() ==> final(self).core() && final(self).p_del() is None && final(self).p_ins() is None && final(self).p_eq() == old(self).p_eq()
             && ((old(self).p_del() is Some || old(self).p_ins() is Some) ==> final(self).xs().last == 2)
-            && ((old(self).p_del() is None && old(self).p_ins() is None) ==> final(self).em_() == old(self).em_()),
+            && ((old(self).p_del() is None && old(self).p_ins() is None) ==> final(self).em_() == old(self).em_())
+            && ((old(self).p_del() is Some || old(self).p_ins() is Some) ==> final(self).em_() == old(self).em_().push(Self::flushed_ev(old(self).p_del(), old(self).p_ins()))),   // [C09]
 ''', start=fd, ind='    ')
 o.after('{', '''
 let ghost pre = *vstd::prelude::old(self);
@@ -243,7 +265,16 @@ proof {
         }
     }
 }
-''' + DBG, '        ')
+''' + DBG + '''
+proof {   // [C09]
+    if ev_stuck(self.rr(), self.hist_()) {
+        lemma_ev_stuck_prefix(pre.rr(), pre.hist_(), e);
+        assert(pre.late_ok());
+        if pre.p_del() is Some || pre.p_ins() is Some { lemma_ev_late_push(pre.rr(), pre.em_(), Self::flushed_ev(pre.p_del(), pre.p_ins())); }
+        assert(self.late_ok());   // [C09]
+    }
+}
+''', '        ')
 m = method(o, 'delete', 'Ev::Delete(old_index, old_len, new_index)', 'flush_eq')
 i = o.find('Ok(())', m)
 o.lines[i:i] = ghost('''
@@ -251,6 +282,14 @@ proof {
     self.hist@ = self.hist@.push(e);
     lemma_run_push(pre.rr(), pre.rst0_(), pre.hist_(), e);
     assert(self.core());
+}
+proof {   // [C09]
+    if ev_stuck(self.rr(), self.hist_()) {
+        lemma_ev_stuck_prefix(pre.rr(), pre.hist_(), e);
+        assert(pre.late_ok());
+        if pre.p_eq() is Some { lemma_ev_late_push(pre.rr(), pre.em_(), Ev::Equal(pre.p_eq().unwrap().0, pre.p_eq().unwrap().1, pre.p_eq().unwrap().2)); }
+        assert(self.late_ok());   // [C09]
+    }
 }
 ''', '        ')
 m = method(o, 'insert', 'Ev::Insert(old_index, new_index, new_len)', 'flush_eq')
@@ -260,6 +299,14 @@ proof {
     self.hist@ = self.hist@.push(e);
     lemma_run_push(pre.rr(), pre.rst0_(), pre.hist_(), e);
     assert(self.core());
+}
+proof {   // [C09]
+    if ev_stuck(self.rr(), self.hist_()) {
+        lemma_ev_stuck_prefix(pre.rr(), pre.hist_(), e);
+        assert(pre.late_ok());
+        if pre.p_eq() is Some { lemma_ev_late_push(pre.rr(), pre.em_(), Ev::Equal(pre.p_eq().unwrap().0, pre.p_eq().unwrap().1, pre.p_eq().unwrap().2)); }
+        assert(self.late_ok());   // [C09]
+    }
 }
 ''', '        ')
 m = o.find('fn finish(', im)
@@ -283,6 +330,16 @@ o.lines[i:i] = ghost('''
 proof {
     self.hist@ = self.hist@.push(e);
     lemma_run_push(pre.rr(), pre.rst0_(), pre.hist_(), e);
+}
+proof {   // [C09]
+    if ev_stuck(self.rr(), self.hist_()) {
+        lemma_ev_stuck_prefix(pre.rr(), pre.hist_(), e);
+        assert(pre.late_ok());
+        let em1 = if pre.p_eq() is Some { pre.em_().push(Ev::Equal(pre.p_eq().unwrap().0, pre.p_eq().unwrap().1, pre.p_eq().unwrap().2)) } else { pre.em_() };
+        if pre.p_eq() is Some { lemma_ev_late_push(pre.rr(), pre.em_(), Ev::Equal(pre.p_eq().unwrap().0, pre.p_eq().unwrap().1, pre.p_eq().unwrap().2)); }
+        if pre.p_del() is Some || pre.p_ins() is Some { lemma_ev_late_push(pre.rr(), em1, Self::flushed_ev(pre.p_del(), pre.p_ins())); }
+        assert(self.late_ok());   // [C09]
+    }
 }
 ''', '        ')
 o.save()
